@@ -45,7 +45,9 @@ def objOf (idx : Nat) (j : Json) : Obj :=
     of := str j "of"
     flag := bool j "flag"
     inuse := bool j "inuse"
-    pkgs := strs j "pkgs" }
+    pkgs := strs j "pkgs"
+    inactive := bool j "inactive"
+    skipDeps := bool j "skipDeps" }
 
 def enumFrom {α : Type} : Nat → List α → List (Nat × α)
   | _, [] => []
